@@ -217,6 +217,18 @@ def run(res, tier, seed, driver_ok):
             corr('mr.jacobianspace %s %s %s' % (C.f2h(nj), ' '.join(C.f2h(x) for x in S.T.reshape(-1)), ' '.join(C.f2h(x) for x in thv)), np.asarray(Jc).T.reshape(-1), 1e-9)
             if G.gt(np.max(np.abs(Jc - Js)), 1e-8):
                 bad('chainJacobian', 'chain Jacobian differs from the analytic space Jacobian', {'screws': S.T.tolist(), 'theta': thv.tolist()}, G.maxdiff(Jc, Js))
+            # whole-number screws (axis-aligned joints through lattice points) typed as integers, as a caller would write them
+            Si = np.zeros((6, nj), dtype=int)
+            for j_ in range(nj):
+                w_ = [0, 0, 0]; w_[rnd.randrange(3)] = rnd.choice([1, -1]); q_ = [rnd.randint(-3, 3) for _ in range(3)]
+                Si[:3, j_] = w_; Si[3:, j_] = -np.cross(w_, q_)
+            try:
+                Jci = np.asarray(fsr.chainJacobian(Si, thv), dtype=float)
+                Jsi = mr.JacobianSpace(np.ascontiguousarray(Si.astype(float)), thv)
+                if Jci.shape != Jsi.shape or G.gt(np.max(np.abs(Jci - Jsi)), 1e-8):
+                    bad('chainJacobian', 'chain Jacobian differs from the analytic space Jacobian', {'screws': Si.T.tolist(), 'theta': thv.tolist(), 'dtype': 'int'}, G.maxdiff(Jci, Jsi) if Jci.shape == Jsi.shape else 'shape')
+            except Exception as e:
+                bad('raises:chainJacobian:%s' % type(e).__name__, 'chainJacobian raised on whole-number screws', {'screws': Si.T.tolist(), 'theta': thv.tolist()}, repr(e))
             f = lambda x: np.array([math.sin(x[0]) * x[1], x[0] ** 2 + x[2], math.cos(x[2]) * x[1]])
             x0 = np.array([rnd.uniform(-1, 1) for _ in range(3)])
             Jn = fsr.numericalJacobian(f, x0, 1e-5)
